@@ -26,8 +26,8 @@ RULE = (
     "file in that execution; distinct = distinct (world digest, scenario digest, tape digest)."
 )
 TIERS = {
-    "quick": {"runs": 120, "budget_s": 45, "min_runs": 15, "run_timeout_s": 240},
-    "thorough": {"runs": 8000, "budget_s": 800, "min_runs": 300, "run_timeout_s": 600},
+    "quick": {"runs": 120, "budget_s": 45, "min_runs": 4, "run_timeout_s": 240},
+    "thorough": {"runs": 8000, "budget_s": 800, "min_runs": 40, "run_timeout_s": 600},
 }
 COMPONENTS_REAL = [
     "sqlfluff Linter.load_raw_file_and_config size gate, templater large_file_check, runner skipped_file_count (serial + ParallelRunner), cli lint/fix exit handling",
